@@ -3213,8 +3213,10 @@ orc_compiler_sse_register_rules (OrcTarget *target)
   rule_set = orc_rule_set_new (orc_opcode_set_get("sys"), target,
       ORC_TARGET_SSE_SSE2);
 #else
+  /* pinsrw, pshufw, pavgb, pmaxub, ... used by the loads and by many rules
+   * below are extensions that came with SSE/MMXEXT, not plain MMX */
   rule_set = orc_rule_set_new (orc_opcode_set_get("sys"), target,
-      ORC_TARGET_MMX_MMX);
+      ORC_TARGET_MMX_MMX | ORC_TARGET_MMX_MMXEXT);
 #endif
 
   orc_rule_register (rule_set, "loadb", sse_rule_loadX, NULL);
